@@ -1,4 +1,6 @@
-"""C14: hash_map holds exactly the reference key->value association."""
+"""C14: hash_map holds exactly the reference key->value association.
+Properties_C14.v: theorems about the chain-level model; Properties_C14_ptr.v: the pointer-level transliteration of
+hash_map.hpp refines the chain-level model (so the theorems hold of the pointer code itself)."""
 import sys
 import vlib
 from comp.hashmap import check as hashmap
@@ -10,7 +12,7 @@ def main():
     c.assumptions = ["hash is any total function (Section variable)", "insert only of absent keys (documented precondition)",
                      "keys compared with ==; element copy/move behave as value transfer"]
     c.kind_filter = lambda k: k not in vlib.LIFETIME_KINDS     # lifetime/allocation kinds belong to C16
-    c.prove()
+    c.prove(["C14", "C14_ptr"])
     hashmap.run(c)
     sys.exit(c.finish())
 
